@@ -953,8 +953,12 @@ def _build_c20p(inputs):
     import random
 
     def run():
-        st = importlib.import_module("selftest_akai_program")
         pw = importlib.import_module("akai_program_writer")
+        ns = L.load_helpers("selftest_akai_program.py", {"make_program", "make_header", "make_zone", "make_keygroup", "NOTE_BYTES_C_TO_GSHARP",
+                                                          "Picker", "HEADER_RANGES", "KEYGROUP_RANGES", "ZONE_RANGES", "FMT_RANGE"})
+
+        class st:      # noqa
+            make_program = staticmethod(ns["make_program"])
         rng = random.Random(inputs["seed"])
         progs = []
         files = [_sample(n, 10, k + 1) for k, n in enumerate(["SMP A", "SMP B", "SMP C", "SMP D"])]
